@@ -276,7 +276,8 @@ func c04Middleware(c *Ctx) {
 	n := 0
 	for _, allow := range []bool{false, true} {
 		for _, ncookies := range []int{0, 1, 2} {
-			for _, irt := range []*string{sp(id), sp("id-0000000000"), sp(""), nil} {
+			for ci, irt := range []*string{sp(id), sp("id-0000000000"), sp(""), nil, sp(id), sp("id-0000000000"), sp(""), nil} {
+				own := ci >= 4 // the second pass keeps samlsp.New's own ServiceProvider
 				n++
 				cfg := defaultCfg()
 				cfg.AllowIdpInit = allow
@@ -300,7 +301,11 @@ func c04Middleware(c *Ctx) {
 					if err != nil {
 						panic(err)
 					}
-					m.ServiceProvider = *spv
+					// half of the cases keep the ServiceProvider that samlsp.New itself configured (its defaults are
+					// part of what decides which ids are outstanding), the other half install the harness's own
+					if !own {
+						m.ServiceProvider = *spv
+					}
 					var cookies []*http.Cookie
 					for k := 0; k < ncookies; k++ {
 						rr := httptest.NewRecorder()
@@ -333,10 +338,10 @@ func c04Middleware(c *Ctx) {
 					irtS = "'" + *irt + "'"
 				}
 				c.Count("class/middleware")
-				c.Add(g, &Case{Key: map[string]string{"class": "middleware", "allow_idp_initiated": fmt.Sprint(allow), "tracking_cookies": fmt.Sprint(ncookies), "irt": irtS},
+				c.Add(g, &Case{Key: map[string]string{"class": "middleware", "allow_idp_initiated": fmt.Sprint(allow), "tracking_cookies": fmt.Sprint(ncookies), "irt": irtS, "sp_from_new": fmt.Sprint(own)},
 					Input: map[string]any{"allow_idp_initiated": allow, "tracking_cookies": ncookies, "in_response_to": irtS},
 					Obs:   map[string]any{"status": status, "accepted": accepted, "expected": want, "panic": panicked}, Term: fmt.Sprint(ok), ImplSpecOK: Bptr(ok),
-					Dedup: fmt.Sprintf("%v/%d/%s", allow, ncookies, irtS)})
+					Dedup: fmt.Sprintf("%v/%d/%s/%v", allow, ncookies, irtS, own)})
 			}
 		}
 	}
